@@ -277,5 +277,21 @@ Definition fresh : state := {| s_time := 0; s_events := []; s_uid := 0; s_steps 
 Definition init (cfg : config) : state :=
   if c_abm cfg then fst (schedule_relative cfg fresh SCALE gen_step_prio (-1) (-1) true []) else fresh.
 
-Record case := { c_cfg : config; c_fuel : nat; c_ops : list op }.
-Definition run_case (c : case) : list (list Z) := run_ops (c_cfg c) (c_fuel c) (init (c_cfg c)) (c_ops c).
+(* --- before setup(model): scheduling, cancelling and peak_ahead work as usual (ABMSimulator has no model.step event
+   yet); run_until / run_for / run_next_event raise "simulator has not been setup" before touching anything --- *)
+Definition E_NOSETUP : Z := 4.
+Definition is_run (o : op) : bool :=
+  match o with ORunUntil _ | ORunFor _ | ORunNext => true | _ => false end.
+Definition step_op_unset (cfg : config) (fuel : nat) (st : state) (o : op) : state * list Z * list logitem :=
+  if is_run o then (st, [-1; E_NOSETUP], []) else step_op cfg fuel st o.
+Fixpoint run_ops_unset (cfg : config) (fuel : nat) (st : state) (ops : list op) : list (list Z) :=
+  match ops with
+  | [] => []
+  | o :: r => let '(st1, ob, _) := step_op_unset cfg fuel st o in ob :: run_ops_unset cfg fuel st1 r
+  end.
+
+(* c_setup = false: the history runs on a simulator on which setup was never called *)
+Record case := { c_cfg : config; c_setup : bool; c_fuel : nat; c_ops : list op }.
+Definition run_case (c : case) : list (list Z) :=
+  if c_setup c then run_ops (c_cfg c) (c_fuel c) (init (c_cfg c)) (c_ops c)
+  else run_ops_unset (c_cfg c) (c_fuel c) fresh (c_ops c).
